@@ -4,6 +4,7 @@ import (
 	"context"
 	"fmt"
 	"strings"
+	"time"
 
 	"github.com/creachadair/jrpc2"
 	"verif/vs"
@@ -76,7 +77,13 @@ func c05Scenario(p c05P, b Bounds) *Scenario {
 					d = newDctx()
 					ctx = d
 				} else if has(p.Items, "cancel") {
-					ctx, cancel = context.WithCancel(context.Background())
+					ctx, cancel = cancelCauseCtx()
+				} else if has(p.Items, "expired") {
+					// a deadline that has passed before the operation starts, given with a cause
+					var stop context.CancelFunc
+					ctx, stop = context.WithDeadlineCause(context.Background(), time.Unix(1, 0), errCause)
+					defer stop()
+					vs.Event("env", "deadline")
 				}
 				vs.GoNamed("peer", h.peerLoop)
 				var j Join
@@ -404,7 +411,7 @@ func c05Batch2(items []string, b Bounds) *Scenario {
 					OnCancel: func(_ *jrpc2.Client, r *jrpc2.Response) { vs.Event("hook", "OnCancel", r.ID()) },
 				})
 				h.cli = c
-				ctx, cancel := context.WithCancel(context.Background())
+				ctx, cancel := cancelCauseCtx()
 				defer cancel()
 				vs.GoNamed("peer", h.peerLoop)
 				var j Join
@@ -645,6 +652,11 @@ func c05Scenarios(tier string) []*Scenario {
 			}
 		}
 	}
+	for _, op := range ops {
+		for _, o := range [][]string{{"expired", "op"}, {"expired", "op", "reply"}} {
+			out = append(out, c05Scenario(c05P{Op: op, Items: o, Unblock: true}, Bounds{1, 2, 0}))
+		}
+	}
 	pairs := [][]string{{"ucallback", "close"}, {"ucallback", "eof"}, {"gcallback", "eof"}, {"gcallback", "close"}, {"gcallback", "recverr"}, {"gcallback", "malformed"}, {"reply", "cancel"}, {"reply", "close"}, {"cancel", "close"}, {"reply", "eof"}, {"reply", "deadline"}, {"close", "eof"},
 		{"reply", "recverr"}, {"cancel", "malformed"}, {"callback", "close"}, {"sendfault", "close"}, {"reply", "callback"}, {"deadline", "close"}}
 	for _, pr := range pairs {
@@ -779,7 +791,7 @@ func c10ClientCancel(second, closeRace bool, b Bounds) *Scenario {
 			body := func() {
 				lib, peer, _ := NewPipe(PipeOpts{Name: "cli", CloseUnblocksRecv: true, Monitor: true})
 				c := jrpc2.NewClient(lib, nil)
-				ctx, cancel := context.WithCancel(context.Background())
+				ctx, cancel := cancelCauseCtx()
 				var j Join
 				started := false
 				j.Go("m0", func() { started = true; c.Call(ctx, "m0", nil) })
